@@ -21,6 +21,7 @@ var table = map[string]func(tier string) int{
 	"C06": checks.C06,
 	"C07": checks.C07,
 	"C08": checks.C08,
+	"C09": checks.C09,
 	"C10": checks.C10,
 	"C11": checks.C11,
 	"C12": checks.C12,
